@@ -45,6 +45,9 @@ EXTRA4 = {
     'two-nested-branches': [('A', 'B'), ('A', 'B', 'C'), ('A', 'D'), ('A', 'D', 'E')],
     'two-nested-branches-4': [('A', 'B'), ('A', 'B', 'C'), ('A', 'D'), ('A', 'C', 'D')],
     'three-branches': [('A', 'B'), ('A', 'B', 'C'), ('A', 'D'), ('A', 'D', 'E'), ('A', 'E')],
+    # cliques sharing the pair AB but listing it in different relative orders
+    'mixed-orders': [('A', 'B', 'C'), ('A', 'B', 'D'), ('B', 'A', 'E'), ('B', 'A', 'C', 'D')],
+    'mixed-orders-4': [('A', 'B', 'C'), ('B', 'A', 'D'), ('C', 'D')],
 }
 
 
@@ -74,13 +77,15 @@ def jobs(tier, seed):
         else:
             cfgs = [(d, m, pc, T) for d in (0.2, 0.5, 0.8) for m in (True, False) for pc, T in (('all', 10.0), ('input', 1.0), ('x5', 10.0))]
         out.append({'k': 3, 'fam': [list(c) for c in fam], 'present': 'sorted' if i % 2 == 0 else 'reversed', 'cfgs': cfgs, 'seed': seed})
+        if len(fam) >= 2 and any(len(c) >= 2 for c in fam):
+            out.append({'k': 3, 'fam': [list(c) for c in fam], 'present': 'alternating', 'cfgs': [(0.5, i % 2 == 0, 'all', 10.0)], 'seed': seed, 'late_total': i % 3 == 0})
     for name, fam in EXTRA4.items():
         if name == 'four-triples' and tier == 'quick':
             continue
         cfgs = [(0.5, True, 'all', 10.0), (0.2, False, 'all', 10.0)] if tier == 'quick' else [(d, m, 'all', 10.0) for d in (0.2, 0.5, 0.8) for m in (True, False)]
         k = 5 if any('E' in c for c in fam) else 4
-        for cfg in cfgs:
-            out.append({'k': k, 'fam': [list(c) for c in fam], 'present': 'asis', 'cfgs': [cfg], 'seed': seed})
+        for ci, cfg in enumerate(cfgs):
+            out.append({'k': k, 'fam': [list(c) for c in fam], 'present': 'asis', 'cfgs': [cfg], 'seed': seed, 'late_total': ci % 2 == 1})
     return out
 
 
@@ -119,8 +124,15 @@ def run_cfg(job, cfg):
     fam = [tuple(c) for c in job['fam']]
     if job['present'] == 'reversed':
         fam = [tuple(reversed(c)) for c in fam]
+    elif job['present'] == 'alternating':   # cliques disagree on the relative order of the attributes they share
+        fam = [tuple(reversed(c)) if i % 2 == 1 else c for i, c in enumerate(fam)]
     rng = np.random.RandomState(zlib.crc32(repr((job['seed'], fam, pclass)).encode()) % 2 ** 31)
-    rg = RegionGraph(dom, list(fam), total=T, minimal=minimal, convex=True, iters=5000, convergence=1e-10, damping=damping)
+    if job.get('late_total'):
+        # the total is a public attribute; LocalInference assigns it on a ready-made oracle after construction
+        rg = RegionGraph(dom, list(fam), total=1.0, minimal=minimal, convex=True, iters=5000, convergence=1e-10, damping=damping)
+        rg.total = T
+    else:
+        rg = RegionGraph(dom, list(fam), total=T, minimal=minimal, convex=True, iters=5000, convergence=1e-10, damping=damping)
     regs = list(rg.cliques)
     scale = 5.0 if pclass == 'x5' else 1.0
     pots = CliqueVector({r: Factor(dom.project(r), scale * rng.randn(*dom.project(r).shape) if (pclass != 'input' or r in fam) else np.zeros(dom.project(r).shape))
@@ -150,7 +162,7 @@ def run_cfg(job, cfg):
 def run_job(job):
     acc = Acc()
     for cfg in job['cfgs']:
-        case = {'k': job['k'], 'fam': job['fam'], 'present': job['present'], 'cfgs': [list(cfg)], 'seed': job['seed']}
+        case = {'k': job['k'], 'fam': job['fam'], 'present': job['present'], 'cfgs': [list(cfg)], 'seed': job['seed'], 'late_total': job.get('late_total', False)}
         with M.quiet():
             fails, primal, dual, nreg = run_cfg(job, tuple(cfg))
         acc.case(case, nontrivial=nreg >= 2)
